@@ -98,11 +98,33 @@ def enabled_events(ds):
     return evs
 
 
-def build(ds0, labels, history, by_str):
-    """fresh real object, events replayed; returns (dataset or None if the last event raised Empty, exception)."""
+def observe(d):
+    """read every view and derived object once (results discarded): whatever the object caches is now populated,
+    so a later mutation is applied to an object that has ALREADY been looked at."""
+    try:
+        d.unified_rankings()
+        d.unified_dataset()
+        d.get_positions()
+        d.get_bucket_ids()
+        d.universe, d.nb_elements, d.mapping_elem_id, d.mapping_id_elem, d.is_complete, d.without_ties
+        str(d), d.description()
+        for r in d.rankings:
+            r.positions, r.domain, r.nb_elements
+        uni = list(d.universe)
+        if uni:
+            d.sub_problem_from_elements({uni[0]})
+            d.sub_problem_from_ids({0})
+    except Exception:
+        pass   # failures of the views themselves are reported by check_state
+
+
+def build(ds0, labels, history, by_str, observed=False):
+    """fresh real object, events replayed (optionally every view is read before each event)."""
     from ..lib import mk_dataset
     d = mk_dataset(ds0, labels, name='c16')
     for ev in history:
+        if observed:
+            observe(d)
         apply_event(d, ev, by_str)
     return d
 
@@ -278,6 +300,21 @@ def explore_from(ctx, ds0, lname, n, only_history=None):
                 t_after = set(e.type for e in d.universe)
                 if t_before != t_after:
                     ctx.count('homogenisation_flips')
+            # the same transition on an object whose views were all read before each mutation (stale caches)
+            try:
+                d2 = build(ds0, labels, hist, by_str, observed=True)
+                observe(d2)
+                apply_event(d2, ev, by_str)
+                got2 = abstract_of(d2, by_str)
+            except Exception as e:
+                ctx.violation('mutator-raises-after-views-were-read', case, None, got, exc=e)
+                got2 = None
+            ctx.evals += 1
+            if got2 is not None:
+                if got2 != got:
+                    ctx.violation('mutation-result-depends-on-earlier-reads', case, got2, got)
+                else:
+                    check_state(ctx, d2, got2, by_str, dict(case, views_read_before_each_mutation=True))
             if got not in seen:
                 seen.add(got)
                 nstates += 1
